@@ -90,6 +90,8 @@ func TestC01(t *testing.T) {
 		mintedCum := map[string]*big.Int{}
 		height := int64(2)
 		mintBlocks, burnBlocks, acceptedMsgs, rejectedMsgs := 0, 0, 0, 0
+		// a second denomination for inflows (minted before the history starts)
+		FundAccount(app, v.Ctx, KeyAcc(0).Addr, sdk.NewCoins(sdk.NewCoin("uatom", sdk.NewIntFromBigInt(pow10[24]))))
 		balancesEqualSupply(t, v, "initial", &hist)
 
 		block := func(dt int64) {
@@ -234,12 +236,13 @@ func TestC01(t *testing.T) {
 				var srcs []DAcc
 				for _, sd := range dcfg.Subs {
 					for _, s := range sd.Sources {
-						if s.Type == tBase && s.Id != LockedVestingAddr().String() && moduleNameByAddr[s.Id] == "" {
+						if s.Type == tBase && moduleNameByAddr[s.Id] == "" {
 							srcs = append(srcs, s)
 						}
 					}
 				}
-				amt := sdk.NewCoins(sdk.NewCoin(Denom, sdk.NewIntFromBigInt(genAmount(t, "amt", 20, false))))
+				den := []string{Denom, Denom, "uatom"}[rapid.IntRange(0, 2).Draw(t, "inflowDenom")]
+				amt := sdk.NewCoins(sdk.NewCoin(den, sdk.NewIntFromBigInt(genAmount(t, "amt", 20, false))))
 				if len(srcs) > 0 && rapid.Bool().Draw(t, "toBase") {
 					s := srcs[rapid.IntRange(0, len(srcs)-1).Draw(t, "src")]
 					if err := app.BankKeeper.SendCoins(v.Ctx, KeyAcc(0).Addr, mustAddr(s.Id), amt); err != nil {
